@@ -19,7 +19,7 @@ CFG = {
                                  "C02_ieee_ray_exact_on_scaled_grid", "C02_ieee_onSegment_exact_on_scaled_grid",
                                  "C02_nan_query_outside", "C02_inf_query_outside", "C02_nan_vertex_ring_ignored",
                                  "C02_xf_finite_eq_model", "C02_xf_finite_spec",
-                                 "C02_tie_GenOL_loops", "C02_overflow_breaks_within", "C02_overflow_misses_onEdge",
+                                 "C02_tie_GenOL_loops", "C02_tie_Polygons", "C02_overflow_breaks_within", "C02_overflow_misses_onEdge",
                                  "C02_overflow_false_onEdge", "C02_overflow_false_inside", "C02_no_overflow_sub",
                                  "C02_no_overflow_pointSubtract"]],
     "lean_dirs": ["C02"],
@@ -35,7 +35,8 @@ CFG = {
         "faulting index operations (GenLib.lean: idx, setIdx, forRange, forInt with early return/continue as Ctl values). Ties.lean proves "
         "Gen.f = Model.f by rfl; TiesLoops.lean proves the loops equal to the model by induction (C02_tie_pointInPolygonal etc.). The "
         "translation of float division/comparison into FQ (fdiv, fdivR, FQ.eq, FQ.ge), of box fields into ERat (math.Min/Max = ERat.min/max), of "
-        "pg.Polygons() into the model's Polygonal.polygons, of reflect.DeepEqual(p, poly) into `poly = .polygon p`, and the value semantics of "
+        "reflect.DeepEqual(p, poly) into `poly = .polygon p`, of the interface call pg.Polygons() into a match on the three dynamic types "
+        "(the three method bodies ARE regenerated: Polygonal_Polygons, tie C02_tie_Polygons), and the value semantics of "
         "slices/pointers (no aliasing; make = zero values) are part of the trusted base and are exercised by the correspondence run",
         "IEEE-754 rounding: on the half-integer grid times 2^s ((k/2)*2^s, |k| <= 2^11, -1000 <= s <= 900) PROVED (ProofsFloat.lean) for every "
         "rounding function that is monotone and fixes the doubles m*2^e (|m| <= 2^53, -1074 <= e <= 970); IEEE.lean PROVES that roundTiesToEven "
@@ -44,7 +45,10 @@ CFG = {
         "Off those grids (margin-protected arbitrary floats) rounding is checked by the correspondence run, not proved",
         "harness/cmd/c02 + lean driver + lib/vcheck.py transport inputs faithfully",
     ],
-    "assumptions": ["finite coordinates for the property theorems (the Rat model identifies -0.0 with 0). NaN/±Inf/-0.0: third rendering of the source "
+    "assumptions": ["no overflow: coordinate differences of magnitude 2^1024 and above overflow in the real code and the property FAILS there (known finding; "
+                    "fourth rendering GenO/GenOL, pt ovf-* lines, ProofsOvf.lean: C02_overflow_breaks_within …); "
+                    "finite coordinates for the property theorems (the Rat model identifies -0.0 with 0; ProofsXF.lean PROVES that the XF rendering, "
+                    "which does not, agrees with it for finite coordinates: C02_xf_finite_eq_model). NaN/±Inf/-0.0: third rendering of the source "
                     "over XF (XF.lean: IEEE comparison/sub/div/math.Min/Max with NaN, ±Inf, signed zero; finite results exact, no overflow) — "
                     "ProofsNaN.lean proves NaN query → Outside, ±Inf query vs finite vertices → Outside, rings with a NaN vertex are dropped; "
                     "the `nf` lines compare that rendering with the real code (DIFF only; outside the property's quantifier)",
